@@ -16,7 +16,7 @@ var props = map[string]*propCfg{
 	},
 	"C11": {
 		Engine: "schedsim", Level: "exploration",
-		QuickRuns: 6000, ThoroughRuns: 3000000, RaceQuickRuns: 1500, RaceThoroughRuns: 400000, QuickSeconds: 40, ThoroughSeconds: 900, TimeoutS: 40,
+		QuickRuns: 6000, ThoroughRuns: 3000000, RaceQuickRuns: 3000, RaceThoroughRuns: 400000, QuickSeconds: 40, ThoroughSeconds: 900, TimeoutS: 40,
 		Rule:        "one run = 2-4 simulated clients (real goroutines, exactly one running at a time, next client chosen from the tape at every yield point: jet's verifYield hook sites before each lock/shared-container access and every entry into the Loader/Cache/Writer seams; uniform-with-stay-bias or PCT strategy) each issuing 2-12 tape-chosen operations on one Set: GetTemplate/Parse/Execute of generated templates (first-time loads of shared extends/import/include targets, field-cache population reset per run), AddGlobal/LookupGlobal/{{g}} reads with unique values, Set/Delete/Exists/Open on the in-memory loader, edits of volatile templates, dump(); Runtimes and rangers are handed across clients by the simulated pools. The same seeds are also executed by a -race worker whose baton is invisible to the race detector (so unsynchronised accesses are reported deterministically). Non-trivial = more than one context switch and more than one operation; distinct = hash of (context-switch sequence, operation history).",
 		Assumptions: append([]string{"the race detector is the oracle for data-race freedom: sound for the executions it sees, blind to code the workloads never reach", "loads are not required to be linearizable against loader edits, and concurrent GetTemplate calls need not return the same pointer (the statement promises neither)"}, stdAssume...),
 		Real:        []string{"Set (cache, globals + gmx, getTemplate)", "default cache (sync.Map)", "struct field cache + mutex", "InMemLoader + lock", "lexer goroutines", "parser", "interpreter", "Go race detector (second half of the runs)"},
